@@ -90,3 +90,114 @@ class ParentMap:
         while node in self.parent:
             node = self.parent[node]
             yield node
+
+
+def resolve_callee(index, fn, call):
+    """FunctionInfo of an in-package callee of `call` made inside `fn`
+    (self.m(), cls.m(), Class.m(), module function), or None."""
+    f = call.func
+    if isinstance(f, ast.Attribute) and isinstance(f.value, ast.Name):
+        recv = f.value.id
+        if fn.cls is not None and recv in (fn.params[:1] or ["self"]) + ["cls", "self"]:
+            return fn.cls.find_method(f.attr)
+        b = index.resolve(fn.module, recv)
+        if b is not None and b.kind == "class":
+            return b.target.find_method(f.attr)
+        if b is not None and b.kind == "module":
+            b2 = index.resolve(b.target, f.attr)
+            if b2 is not None and b2.kind == "func":
+                return b2.target
+    elif isinstance(f, ast.Name):
+        b = index.resolve(fn.module, f.id)
+        if b is not None and b.kind == "func":
+            return b.target
+    elif isinstance(f, ast.Attribute) and isinstance(f.value, ast.Call) and isinstance(f.value.func, ast.Name) \
+            and f.value.func.id == "super" and fn.cls is not None:
+        for c in fn.cls.mro()[1:]:
+            if not isinstance(c, str) and f.attr in c.methods:
+                return c.methods[f.attr]
+    return None
+
+
+def closure(index, fn, depth=3, only_private=True):
+    """[fn] + the in-package helpers it calls (transitively, bounded): the scope
+    in which 'does the routine do X' questions are asked, so that extracting
+    statements into a helper does not hide them."""
+    seen = {fn.key: fn}
+    todo = [(fn, 0)]
+    while todo:
+        f, d = todo.pop()
+        if d >= depth:
+            continue
+        for n in walk_no_nested(f.node):
+            if isinstance(n, ast.Call):
+                c = resolve_callee(index, f, n)
+                if c is None or c.key in seen:
+                    continue
+                if only_private and not c.name.startswith("_"):
+                    continue
+                seen[c.key] = c
+                todo.append((c, d + 1))
+    return list(seen.values())
+
+
+def closure_nodes(index, fn, depth=3, only_private=True):
+    for f in closure(index, fn, depth, only_private):
+        for n in walk_no_nested(f.node):
+            yield f, n
+
+
+def resolve_local(fn, expr, depth=0, index=None):
+    """Def-use normalisation of an expression: local names that have exactly one
+    plain assignment in `fn` are replaced by their right-hand side; with `index`,
+    calls of in-package helpers whose body is a single `return <expr>` are
+    replaced by that expression (parameters substituted)."""
+    import copy
+    if depth > 6 or expr is None:
+        return expr
+    single, counts = {}, {}
+    for n in walk_no_nested(fn.node):
+        if isinstance(n, ast.Assign) and len(n.targets) == 1 and isinstance(n.targets[0], ast.Name):
+            counts[n.targets[0].id] = counts.get(n.targets[0].id, 0) + 1
+            single[n.targets[0].id] = n.value
+        elif isinstance(n, ast.Assign):
+            for t in n.targets:
+                for tt in (t.elts if isinstance(t, (ast.Tuple, ast.List)) else [t]):
+                    if isinstance(tt, ast.Name):
+                        counts[tt.id] = counts.get(tt.id, 0) + 2
+        elif isinstance(n, ast.AugAssign) and isinstance(n.target, ast.Name):
+            counts[n.target.id] = counts.get(n.target.id, 0) + 2
+        elif isinstance(n, (ast.For, ast.comprehension)):
+            for tt in ast.walk(n.target):
+                if isinstance(tt, ast.Name):
+                    counts[tt.id] = counts.get(tt.id, 0) + 2
+        elif isinstance(n, ast.NamedExpr) and isinstance(n.target, ast.Name):
+            counts[n.target.id] = counts.get(n.target.id, 0) + 2
+    params = set(a.arg for a in fn.node.args.posonlyargs + fn.node.args.args + fn.node.args.kwonlyargs)
+
+    class Sub(ast.NodeTransformer):
+        def visit_Name(self, node):
+            if isinstance(node.ctx, ast.Load) and counts.get(node.id) == 1 and node.id not in params:
+                return resolve_local(fn, single[node.id], depth + 1, index)
+            return node
+
+        def visit_Call(self, node):
+            self.generic_visit(node)
+            if index is not None and hasattr(fn, "module"):
+                c = resolve_callee(index, fn, node)
+                if c is not None:
+                    body = docstring_stripped(c.node.body)
+                    if len(body) == 1 and isinstance(body[0], ast.Return) and body[0].value is not None \
+                            and not node.keywords and not c.node.args.vararg:
+                        ps = [a.arg for a in c.node.args.posonlyargs + c.node.args.args]
+                        if c.kind in ("method", "classmethod", "property"):
+                            ps = ps[1:]
+                        if len(ps) == len(node.args):
+                            m = dict(zip(ps, node.args))
+
+                            class P(ast.NodeTransformer):
+                                def visit_Name(self, n2):
+                                    return copy.deepcopy(m[n2.id]) if n2.id in m and isinstance(n2.ctx, ast.Load) else n2
+                            return P().visit(copy.deepcopy(body[0].value))
+            return node
+    return Sub().visit(copy.deepcopy(expr))
